@@ -1620,6 +1620,7 @@ class Fxp():
     def __getitem__(self, index):
         # return Fxp(self.val[index], like=self, raw=True)
         y = Fxp(like=self)
+        y.reset()   # (the placeholder value stored by the constructor may raise flags in an object with scale or bias)
         y.val = self.val[index]
         if not isinstance(y.val, (np.ndarray, np.generic)):
             y.val = np.array(y.val, dtype=object)   # a single python integer taken from an array of 64 bits words or wider
